@@ -98,3 +98,18 @@ func checkDivisor(s *slip.Scope, depth int, f slip.Object, args slip.List, div s
 		slip.DivisionByZeroPanic(s, depth, f, args, "divide by zero")
 	}
 }
+
+// reduceNumber returns the canonical form of a rational number. A bignum that
+// fits in a fixnum becomes a fixnum and a ratio with a denominator of one
+// becomes an integer. All other values are returned unchanged.
+func reduceNumber(v slip.Object) slip.Object {
+	switch tv := v.(type) {
+	case *slip.Bignum:
+		if tv.IsInt64() {
+			v = slip.Fixnum(tv.Int64())
+		}
+	case *slip.Ratio:
+		v = ratReduce((*big.Rat)(tv))
+	}
+	return v
+}
